@@ -1,0 +1,8 @@
+//go:build !verif
+
+package jsonapi
+
+import "net/http"
+
+// verifAdjustResponse is a no-op unless the package is built with the `verif` tag (see verif_hook.go).
+func verifAdjustResponse(r *http.Request, resp *response) {}
